@@ -3,6 +3,7 @@
 
 pub mod alloc;
 pub mod evidence;
+pub mod fuzz;
 pub mod known;
 pub mod panics;
 pub mod runner;
